@@ -494,6 +494,9 @@ fn main() {
         (33, 31), (33, 32), (100, 28), (64, 64), (300, 212), (1025, 1023), (1500, 1200), (2049, 2047),
     ];
     pairs.push((3000, 2000));
+    // short x long and long x short: the product's length must come from BOTH operands
+    // (seeded C19-3 sized the FFT domain from the left operand alone)
+    pairs.extend([(2, 4), (4, 2), (3, 7), (7, 3), (2, 9), (5, 60), (60, 5), (7, 200), (1, 129), (17, 500)]);
     if thorough {
         pairs.push((4097, 4095));
         pairs.push((7000, 6000));
